@@ -10,7 +10,7 @@ left undemanded; the library decomposed 'A0' to row index -1, which was repaired
 import itertools
 import re
 
-from ..core import Sub, fail
+from ..core import Sub, fail, digits_of
 
 AZ = 'ABCDEFGHIJKLMNOPQRSTUVWXYZ'
 LABEL = re.compile(r'\$?[A-Za-z]+\$?[1-9][0-9]*\Z', re.ASCII)
@@ -85,6 +85,13 @@ class Columns(Sub):
         return out
 
 
+def bounds(case):
+    """[lo, hi], or ['p10', k, a, b] for 10^k + a .. 10^k + b (numbers too long to be written into a case)"""
+    if case[0] == 'p10':
+        return 10 ** case[1] + case[2], 10 ** case[1] + case[3]
+    return case[0], case[1]
+
+
 class Rows(Sub):
     name = 'c19.rows'
     rule = 'every row number of the bound, label = index + 1 both ways; non-trivial = every row'
@@ -102,18 +109,30 @@ class Rows(Sub):
         yield [10 ** 17 - 1, 10 ** 17 + 3]
         yield [2 ** 64 - 1, 2 ** 64 + 3]
         yield [10 ** 30 + 5, 10 ** 30 + 9]
+        # ... and rows of 4300, 4301 and 5001 digits (the interpreter converts at most 4300 digits at once)
+        yield ['p10', 4299, -2, 2]
+        yield ['p10', 4300, -2, 2]
+        yield ['p10', 5000, 1, 3]
 
     def check(self, env, case):
-        lo, hi = case
+        lo, hi = bounds(case)
         cell = cellmod(env)
         out = []
         for n in range(lo, hi + 1):
-            i = cell.row_label_to_index(str(n))
+            label = digits_of(n)
+            shown = label if len(label) < 40 else '%s...%s (%d digits)' % (label[:6], label[-6:], len(label))
+            try:
+                i = cell.row_label_to_index(label)
+            except Exception as e:
+                i = 'raised %s' % type(e).__name__
             if i != n - 1:
-                out.append(fail('row_label_to_index(%r) = %r, expected %d' % (str(n), i, n - 1), n - 1, repr(i)))
-            s = cell.row_index_to_label(n - 1)
-            if s != str(n):
-                out.append(fail('row_index_to_label(%d) = %r, expected %r' % (n - 1, s, str(n)), str(n), repr(s)))
+                out.append(fail('row_label_to_index(%s) = %s, expected the row number less one' % (shown, repr(i)[:40]), shown, repr(i)[:40]))
+            try:
+                s = cell.row_index_to_label(n - 1)
+            except Exception as e:
+                s = 'raised %s' % type(e).__name__
+            if s != label:
+                out.append(fail('row_index_to_label(%s - 1) = %s, expected that number' % (shown, repr(s)[:40]), shown, repr(s)[:40]))
             if len(out) > 5:
                 break
         env.evals += 2 * (hi - lo + 1)
@@ -126,7 +145,7 @@ def check_full(cell, col, colidx, row, pattern, lower, out):
     """pattern: 0 '', 1 '$col', 2 'row$', 3 both."""
     cabs, rabs = bool(pattern & 1), bool(pattern & 2)
     c = col.lower() if lower else col
-    label = ('$' if cabs else '') + c + ('$' if rabs else '') + str(row)
+    label = ('$' if cabs else '') + c + ('$' if rabs else '') + digits_of(row)
     got = cell.extract_label(label)
     try:
         r, cc = got
@@ -197,9 +216,10 @@ class FullByRow(Sub):
         yield [99999990, 100000001]
         yield [2 ** 53 - 2, 2 ** 53 + 4]
         yield [10 ** 20 + 1, 10 ** 20 + 4]
+        yield ['p10', 4300, -1, 1]
 
     def check(self, env, case):
-        lo, hi = case
+        lo, hi = bounds(case)
         cell = cellmod(env)
         out = []
         n = 0
